@@ -346,14 +346,14 @@ func eofexitC04(c *Ctx, tt *tokenTable) {
 			}
 			switch callee {
 			case read:
-				return []cval{cConst(constant.MakeInt64(0)), cTop}, true
+				return []cval{cConst(constant.MakeInt64(int64(p.eofRune()))), cTop}, true
 			}
 			if fo, ok := callee.Object().(*types.Func); ok && recvTypeName(fo) == "Parser" {
 				switch fo.Name() {
 				case "Scan", "ScanRegex", "ScanIgnoreWhitespace":
 					return []cval{eofTok, cTop, cConst(constant.MakeString(""))}, true
 				case "peekRune":
-					return []cval{cConst(constant.MakeInt64(0))}, true
+					return []cval{cConst(constant.MakeInt64(int64(p.eofRune())))}, true
 				}
 			}
 			if fo, ok := callee.Object().(*types.Func); ok && (recvTypeName(fo) == "bufScanner" || recvTypeName(fo) == "Scanner") {
